@@ -58,9 +58,15 @@ type point struct {
 	Vals   map[int]int `json:"values"`
 }
 
+// noTag: the series does not carry the tag key at all (the model's value 99)
+const noTag = 99
+
 func (p point) proto() *protoMetricsV1.Metric {
 	pm := &protoMetricsV1.Metric{Name: metricNames[p.Metric], Namespace: "ns", Timestamp: baseTime + int64(p.Slot)*10000 + 1234,
-		Tags: []*protoMetricsV1.KeyValue{{Key: "host", Value: hosts[p.Host]}, {Key: "zone", Value: zones[p.Zone]}}}
+		Tags: []*protoMetricsV1.KeyValue{{Key: "zone", Value: zones[p.Zone]}}}
+	if p.Host != noTag {
+		pm.Tags = append([]*protoMetricsV1.KeyValue{{Key: "host", Value: hosts[p.Host]}}, pm.Tags...)
+	}
 	for _, f := range sortedKeys(p.Vals) {
 		pm.SimpleFields = append(pm.SimpleFields, &protoMetricsV1.SimpleField{Name: fieldDefs[f].name, Type: fieldDefs[f].pt, Value: float64(p.Vals[f])})
 	}
@@ -428,6 +434,21 @@ func genPoints(r *vh.Rand, dups bool) ([]point, int) {
 		}
 		if fresh(p) {
 			pts = append(pts, p)
+		}
+	}
+	// series that do not carry the tag key host at all (only zone): with several shards some shard may hold nothing else
+	if r.Chance(35) {
+		for z := 0; z < 3; z++ {
+			if !r.Chance(60) {
+				continue
+			}
+			for j := r.Range(1, 3); j > 0; j-- {
+				p := point{Metric: 0, Host: noTag, Zone: z, Slot: r.Intn(40), Vals: map[int]int{r.Intn(3): r.Range(1, 60)}}
+				if !used[[3]int{0, noTag + z, p.Slot}] || dups {
+					used[[3]int{0, noTag + z, p.Slot}] = true
+					pts = append(pts, p)
+				}
+			}
 		}
 	}
 	// a metric only one or two series have
@@ -843,6 +864,28 @@ func directed() []*world {
 			{NumShards: 4, Place: []int{0, 1, 2, 2}, Nodes: 3},
 			{NumShards: 4, Place: []int{0, 1, 2, 2}, Nodes: 3, Brokers: 2},
 			{NumShards: 4, Place: []int{0, 1, 2, 2}, Nodes: 3, Self: true},
+		}})
+	var pts3 []point
+	for i := 0; i < 12; i++ {
+		h := i % 2
+		pts3 = append(pts3, point{Metric: 0, Host: h, Zone: h, Slot: 2 + i, Vals: map[int]int{0: 1 + i, 2: 30 - i}})
+	}
+	for z := 0; z < 3; z++ {
+		for j := 0; j < 3; j++ {
+			pts3 = append(pts3, point{Metric: 0, Host: noTag, Zone: z, Slot: 3 + 4*j + z, Vals: map[int]int{0: 100 * (z + 1), 2: 7 + j}})
+		}
+	}
+	ws = append(ws, &world{Name: "directed: shards that hold only series without the group-by tag key", Points: pts3,
+		Queries: []*queryJ{
+			mk(queryJ{Metric: 0, Items: []itemJ{{0, 0}}, Group: []int{0}, Lo: 0, Hi: 40}),
+			mk(queryJ{Metric: 0, Items: []itemJ{{0, 0}, {2, 0}}, Group: []int{1}, Lo: 0, Hi: 40}),
+			mk(queryJ{Metric: 0, Items: []itemJ{{0, 0}}, Lo: 0, Hi: 40}),
+			mk(queryJ{Metric: 0, Items: []itemJ{{2, 0}}, Group: []int{0, 1}, Lo: 0, Hi: 40}),
+		},
+		Layouts: []layoutJ{
+			{NumShards: 8, Place: []int{0, 0, 0, 0, 0, 0, 0, 0}, Nodes: 1},
+			{NumShards: 5, Place: []int{0, 0, 0, 0, 0}, Nodes: 1},
+			{NumShards: 8, Place: []int{0, 1, 0, 1, 0, 1, 0, 1}, Nodes: 2},
 		}})
 	return ws
 }
